@@ -172,11 +172,17 @@ NeedsFree(S, j, s) ==
 \* i.e. on locations with hardware (all locations of a deployment are of one kind)
 NeedsIO(S, j, s) ==
   GateUsage /\ NeedsFree(S, j, s) /\ S.alloc[j].locs # <<>> /\ LKind[S.alloc[j].locs[1]] = "hw"
+\* ROLLBACK list removal: every allocated location, every stacked level (one entry per level, as _allocate_job added them)
+RECURSIVE UnlistLevels(_, _, _)
+UnlistLevels(S, j, lv) ==
+  IF lv = <<>> THEN S ELSE UnlistLevels([S EXCEPT !.lj[Head(lv)] = RemoveFirst(@, j)], j, Tail(lv))
+RECURSIVE UnlistLocs(_, _, _)
+UnlistLocs(S, j, locs) ==
+  IF locs = <<>> THEN S ELSE UnlistLocs(UnlistLevels(S, j, Chain(Head(locs))), j, Tail(locs))
 \* after the release: ROLLBACK list removal, notify_all, return
 NotifyTail(S2, j, s) ==
   LET S3 == IF s = "ROLLBACK"
-              THEN [S2 EXCEPT !.lj = [l \in Locs |-> IF l \in SeqSet(S2.alloc[j].locs) THEN RemoveFirst(@[l], j) ELSE @[l]],
-                              !.alloc[j].locs = <<>>]
+              THEN [UnlistLocs(S2, j, S2.alloc[j].locs) EXCEPT !.alloc[j].locs = <<>>]
               ELSE S2
       woken == S3.condq
   IN [S3 EXCEPT !.lockq = @ \o woken,
